@@ -554,6 +554,11 @@ void ezc3d::c3d::updateParameters(const std::vector<std::string> &newPoints, con
 
     // If analogous data has been added
     ezc3d::ParametersNS::GroupNS::Group& grpAnalog(_parameters->group_nonConst(parameters().groupIdx("ANALOG")));
+    // Should always hold its parameters, but we have to take in account Optotrak lazyness (as updateHeader does)
+    if (grpAnalog.nbParameters() == 0 && newAnalogs.size() == 0){
+        updateHeader();
+        return;
+    }
     size_t nAnalogs;
     if (data().nbFrames() > 0){
         if (data().frame(filled).analogs().nbSubframes() > 0)
